@@ -141,6 +141,8 @@ def run_py(case):
             if "py_tag" not in feats:      # classify by the first failing call; shrinking isolates it
                 fam = "bqm" if c["target"].startswith("bqm") else "qm" if c["target"].startswith("qm") else c["target"]
                 feats["py_tag"] = tag
+                if '"big"' in json.dumps(c.get("args")):
+                    feats["py_big_index"] = True      # an int64 value at or beyond the int32 index range
                 feats["py_entry"] = fam + "." + [p for p in c["path"] if isinstance(p, str)][-1]
     if vg_notes:
         fails.append("valgrind reports memory errors in dimod frames: " + json.dumps(vg_notes)[:1500])
